@@ -311,3 +311,156 @@ Proof. split; vm_compute; reflexivity. Qed.
    real loops spin on recv() == b'' for ever; the model runs out of fuel *)
 Example C14_client_eof_observation : receive [[0;0;0;2;7]] = None /\ receive [] = None.
 Proof. split; vm_compute; reflexivity. Qed.
+
+(* ======================= sender side of the log channel ==================== *)
+(* dawgie.pl.logger.TwistedHandler on logging.handlers.SocketHandler
+   (Model/LogSend.v) composed with one LogSink (Model/Frame.v) per connection.
+   pk r = the pickle of record r; ls_env / ls_sends / ls_ticks script what
+   security.connect, sock.sendall and time.time do. *)
+From DV Require Import Model.LogSend Proofs.LogSendProofs.
+
+(* Round trip on a connection that stays up, unbounded: for every history of
+   the handler (any records, any refused / broken / re-made connections before),
+   the connection the handler still holds carries whole frames only, and a
+   LogSink fed its bytes in ANY fragmentation handles exactly the records
+   written to it, in order, and nothing else. *)
+Theorem C14_log_roundtrip : forall pk, (forall r, Z.of_nat (length (pk r)) < 4294967296) ->
+  forall within ticks env sends evs w chunks,
+  ls_sock (ls_run pk within (ls_init ticks env sends) evs) = Some w ->
+  concat chunks = ls_wbytes w ->
+  ls_sink chunks = map Deliver (map pk (ls_wids w)).
+Proof. exact LS_roundtrip_up. Qed.
+Print Assumptions C14_log_roundtrip.
+
+(* ... and when nothing ever fails these are all the records, in the order
+   they were emitted: the first record connects, the others follow. *)
+Theorem C14_log_stream : forall pk, (forall r, Z.of_nat (length (pk r)) < 4294967296) ->
+  forall ticks fid env trs t0 r0 chunks,
+  let evs := LEmit t0 r0 :: map (fun p => LEmit (fst p) (snd p)) trs in
+  let s := ls_run pk false (ls_init ticks (mkLA [] 0 fid :: env) []) evs in
+  exists w, ls_wires s = [w] /\ ls_sock s = Some w /\ ls_dropped s = [] /\ ls_q s = []
+    /\ (concat chunks = ls_wbytes w -> ls_sink chunks = map Deliver (map pk (r0 :: map snd trs))).
+Proof.
+  intros pk Hpk ticks fid env trs t0 r0 chunks. cbv zeta.
+  destruct (LS_history_up pk ticks fid env trs t0 r0) as (w & Hs & Hi & Hc & Hq & Hd & _). cbv zeta in *.
+  exists w. unfold ls_wires. rewrite Hs, Hc. repeat split; auto.
+  intros E. rewrite <- Hi. eapply LS_roundtrip_up; eauto.
+Qed.
+Print Assumptions C14_log_stream.
+
+(* After a connection loss.  For every history and EVERY connection it made
+   (lost, closed or still up): the bytes that arrive are a prefix of the bytes
+   sendall accepted; whatever that prefix and however it is cut, the LogSink of
+   that connection handles a prefix of the records written to it, each of them
+   whole -- a record whose frame was cut short by the loss is never handled. *)
+Theorem C14_log_lost_connection : forall pk, (forall r, Z.of_nat (length (pk r)) < 4294967296) ->
+  forall within ticks env sends evs w pre suf chunks,
+  In w (ls_wires (ls_run pk within (ls_init ticks env sends) evs)) ->
+  ls_wbytes w = pre ++ suf -> concat chunks = pre ->
+  exists ids1 ids2, ls_wids w = ids1 ++ ids2 /\ ls_sink chunks = map Deliver (map pk ids1).
+Proof. exact LS_roundtrip_lost. Qed.
+Print Assumptions C14_log_lost_connection.
+
+(* At most once: when the records handed to the handler (and those
+   security.connect logs) are pairwise different, no record is written twice --
+   neither twice on one connection nor on two connections (the handler never
+   re-sends: the record of a failed sendall is dropped).  With
+   C14_log_lost_connection: every record is handled at most once by the sinks. *)
+Theorem C14_log_at_most_once : forall pk within ticks env sends evs,
+  NoDup (flat_map LS_ev_ids evs ++ LS_future env) ->
+  NoDup (concat (map ls_wids (ls_wires (ls_run pk within (ls_init ticks env sends) evs)))).
+Proof. exact LS_at_most_once. Qed.
+Print Assumptions C14_log_at_most_once.
+
+(* Where the records are: each record emitted or logged during a connect is, at
+   the end, counted exactly once among: written whole to one connection /
+   dropped / still in self.__q / handled locally / not logged yet. *)
+Theorem C14_log_conservation : forall pk within ticks env sends evs x,
+  let s := ls_run pk within (ls_init ticks env sends) evs in
+  LS_cnt x (concat (map ls_wids (ls_wires s))) + LS_cnt x (ls_dropped s) + LS_cnt x (ls_q s)
+  + LS_cnt x (ls_local s) + LS_cnt x (LS_future (ls_env s))
+  = LS_cnt x (flat_map LS_ev_ids evs) + LS_cnt x (LS_future env).
+Proof. exact LS_conservation. Qed.
+Print Assumptions C14_log_conservation.
+
+(* What the real handler does with records emitted while it is connected:
+   the records queued during the handshake go out first, then the record. *)
+Theorem C14_log_connected : forall pk s w r,
+  ls_sock s = Some w -> ls_shaking s = false -> ls_sends s = [] ->
+  ls_emit pk false s r =
+  ls_set_q (ls_set_sock s (Some (mkLW (ls_wids w ++ ls_q s ++ [r])
+       (ls_wbytes w ++ concat (map (ls_makePickle pk) (ls_q s)) ++ ls_makePickle pk r)))) [].
+Proof. exact LS_emit_up. Qed.
+Print Assumptions C14_log_connected.
+
+(* ... and while it is NOT connected.  A record emitted when there is no
+   connection triggers one connect; if that raises, the record is dropped, what
+   security.connect logged is queued and TwistedHandler.makeSocket leaves
+   __shaking set (no try/finally) ... *)
+Theorem C14_log_failed_connect : forall pk s a env r,
+  ls_sock s = None -> ls_shaking s = false -> ls_q s = [] -> ls_rtime s = None ->
+  ls_env s = a :: env -> ls_res a <> 0 ->
+  let s' := ls_emit pk false s r in
+  ls_shaking s' = true /\ ls_sock s' = None /\ ls_dropped s' = ls_dropped s ++ [r]
+  /\ ls_q s' = ls_logged a /\ ls_closed s' = ls_closed s /\ ls_env s' = env.
+Proof. exact LS_failed_connect. Qed.
+Print Assumptions C14_log_failed_connect.
+
+(* ... and from then on, for ever: every record is appended to self.__q, no
+   connection is tried again (the script of connects is not consumed: the
+   back-off of SocketHandler never gets a second chance), no byte is written.
+   NOT a claim of C14 -- it is what the code does (reported as a defect). *)
+Theorem C14_log_sender_stuck : forall pk evs s,
+  ls_shaking s = true -> ls_sock s = None ->
+  let s' := ls_run pk false s evs in
+  ls_shaking s' = true /\ ls_wires s' = ls_wires s /\ ls_env s' = ls_env s
+  /\ ls_dropped s' = ls_dropped s /\ ls_q s' = ls_q s ++ flat_map LS_ev_ids evs.
+Proof. exact LS_stuck_forever. Qed.
+Print Assumptions C14_log_sender_stuck.
+
+(* "after a refused connection the handler reconnects once the server is back"
+   is false: one refusal, then a server that accepts -- nothing is ever sent,
+   however many records follow. *)
+Theorem C14_log_sender_recovers_refuted : exists pk env, In 0 (map ls_res env) /\ forall evs,
+  ls_wires (ls_run pk false (ls_init [] env []) (LEmit 0 1 :: evs)) = []
+  /\ ls_env (ls_run pk false (ls_init [] env []) (LEmit 0 1 :: evs)) = [mkLA [] 0 901].
+Proof.
+  exists ls_ex_pk, [mkLA [] 1 900; mkLA [] 0 901]. split; [right; left; reflexivity|]. intros evs.
+  change (ls_run ls_ex_pk false (ls_init [] [mkLA [] 1 900; mkLA [] 0 901] []) (LEmit 0 1 :: evs))
+    with (ls_run ls_ex_pk false (ls_emit ls_ex_pk false (ls_at (ls_init [] [mkLA [] 1 900; mkLA [] 0 901] []) 0) 1) evs).
+  destruct (LS_stuck_forever ls_ex_pk evs
+              (ls_emit ls_ex_pk false (ls_at (ls_init [] [mkLA [] 1 900; mkLA [] 0 901] []) 0) 1)
+              eq_refl eq_refl) as (_ & W & E & _).
+  cbv zeta in *. rewrite W, E. split; reflexivity.
+Qed.
+Print Assumptions C14_log_sender_recovers_refuted.
+
+(* The model's loop over self.__q never runs out of fuel: it ends with the
+   queue empty, which is the state "self.__q = []" leaves. *)
+Theorem C14_log_flush_fuel : forall pk s, ls_q (ls_flush pk (ls_fuel s) s) = [].
+Proof. exact LS_flush_done. Qed.
+Print Assumptions C14_log_flush_fuel.
+
+(* non-vacuity *)
+Example C14_log_roundtrip_example :
+  let s := ls_run ls_ex_pk false (ls_init [] [mkLA [50] 0 900] []) [LEmit 0 7; LEmit 1 8] in
+  ls_sock s = Some (mkLW [7; 50; 8] [0;0;0;2;7;7; 0;0;0;2;50;50; 0;0;0;2;8;8])
+  /\ ls_sink [[0;0]; [0;2;7;7;0]; [0;0;2;50;50;0;0;0;2]; [8;8]] = [Deliver [7;7]; Deliver [50;50]; Deliver [8;8]].
+Proof. vm_compute. split; reflexivity. Qed.
+(* a send that breaks after 3 bytes, a reconnect, a record dropped; the lost
+   connection delivers its whole record only, whatever arrives of the torn one *)
+Example C14_log_lost_connection_example :
+  let s := ls_run ls_ex_pk false (ls_init [] [mkLA [] 0 900; mkLA [] 0 901] [-1; 3])
+                  [LEmit 0 7; LEmit 1 8; LEmit 1 9] in
+  ls_wires s = [mkLW [7] [0;0;0;2;7;7; 0;0;0]; mkLW [9] [0;0;0;2;9;9]] /\ ls_dropped s = [8]
+  /\ ls_sink [[0;0;0]; [2;7;7;0;0]; [0]] = [Deliver [7;7]] /\ ls_sink [[0;0;0]; [2;7]] = []
+  /\ NoDup (flat_map LS_ev_ids [LEmit 0 7; LEmit 1 8; LEmit 1 9] ++ LS_future [mkLA [] 0 900; mkLA [] 0 901]).
+Proof.
+  vm_compute. repeat split; try reflexivity. repeat constructor; cbn; intuition discriminate.
+Qed.
+Example C14_log_failed_connect_example :
+  let s := ls_init [] [mkLA [50] 1 900; mkLA [] 0 901] [] in
+  ls_sock s = None /\ ls_shaking s = false /\ ls_q s = [] /\ ls_rtime s = None
+  /\ ls_res (mkLA [50] 1 900) <> 0
+  /\ ls_q (ls_emit ls_ex_pk false s 7) = [50; 900] /\ ls_shaking (ls_emit ls_ex_pk false s 7) = true.
+Proof. vm_compute. repeat split; try reflexivity. discriminate. Qed.
